@@ -342,7 +342,20 @@ func (g *treeGen) leaf() Node {
 	case 2:
 		return Node{"t": "leaf", "ty": "str", "v": []any{}}
 	}
-	return Node{"t": "leaf", "ty": "str", "v": g.toks(1, 6, leafAlphabet)}
+	v := g.toks(1, 6, leafAlphabet)
+	// Unicode white space that is NOT a blank of the grammar, strictly inside the text (its edges are trimmed by the package)
+	if len(v) >= 2 && g.rng.Intn(5) == 0 {
+		i := 1 + g.rng.Intn(len(v)-1)
+		isBlank := func(x any) bool { return x == "SP" || x == "TAB" }
+		if !isBlank(v[i-1]) && !isBlank(v[i]) {
+			ws := []any{[]string{"LF", "NB", "EM"}[g.rng.Intn(3)]}
+			if g.rng.Intn(2) == 0 {
+				ws = append(ws, []string{"LF", "NB", "EM"}[g.rng.Intn(3)])
+			}
+			v = append(v[:i:i], append(ws, v[i:]...)...)
+		}
+	}
+	return Node{"t": "leaf", "ty": "str", "v": v}
 }
 
 func (g *treeGen) stack(depth int) Node {
